@@ -718,4 +718,46 @@ theorem order_inv (g : Graph) (o : List Nat) (ho : findCompilationOrder g = .ok 
       | [x], hcc, _ => simp at hcc; rw [hcc]
       | _ :: _ :: _, _, hl => simp at hl
 
+/-- no false "recursively defined": the constant `find_compilation_order` names
+really reaches itself through at least one reference -/
+theorem recursive_sound (g : Graph) (hkeys : g.keys.Nodup) (c : Nat)
+    (h : findCompilationOrder g = .ok (.recursive c)) :
+    g.kind c = .const ∧ ∃ d, Edge g c d ∧ Reach g d c := by
+  unfold findCompilationOrder at h
+  cases hs : selfEdge g g.edges with
+  | some c' =>
+    simp only [hs, Except.ok.injEq, Outcome.recursive.injEq] at h
+    subst h
+    obtain ⟨hk, rs, hm, hr⟩ := selfEdge_inv g g.edges c' hs
+    have hl : g.edges.lookup c' = some rs := lookup_of_mem_nodup g.edges c' rs hkeys hm
+    have e : Edge g c' c' := by simp [Edge, Graph.refs, hl, hr]
+    exact ⟨hk, c', e, Reach.refl _⟩
+  | none =>
+    obtain ⟨comps, ht⟩ := tarjan_total' g
+    simp only [hs, ht, bind, Except.bind] at h
+    cases hm : mixedComponent g comps with
+    | some c' =>
+      simp only [hm, Except.ok.injEq, Outcome.recursive.injEq] at h
+      subst h
+      obtain ⟨comp, hcomp, hl, hcc, hk⟩ := mixedComponent_inv g comps c' hm
+      have topo := tarjan_topo g hkeys comps ht
+      have hnd : comp.Nodup := by
+        obtain ⟨pre, post, hsplit⟩ := List.append_of_mem hcomp
+        have := topo.nodup
+        rw [hsplit] at this
+        simp only [List.flatten_append, List.flatten_cons] at this
+        exact (List.nodup_append.1 (List.nodup_append.1 this).2.1).1
+      obtain ⟨y, hy, hyc⟩ := exists_ne_of_length hnd hl c'
+      have sc := tarjan_scc g comps ht comp hcomp
+      obtain ⟨m, e, r⟩ := (sc c' y hcc hy).head_of_ne (Ne.symm hyc)
+      exact ⟨hk, m, e, r.trans (sc y c' hy hcc)⟩
+    | none =>
+      simp only [hm] at h
+      cases hcc : contextCheck g with
+      | error e => simp [hcc] at h
+      | ok r =>
+        cases r with
+        | some c' => simp [hcc] at h
+        | none => simp [hcc] at h
+
 end RotoV.Tarjan
